@@ -1206,7 +1206,17 @@ func engineReflect(cfg config, o *out) {
 			for i := 0; i < n/3; i++ {
 				v := vg.msg(mi, 2, 2+r.intn(6))
 				fixLits(si, mi, v)
-				g.random(newSessionV(o, si, mi, "random_from_value", v), 25)
+				sv := newSessionV(o, si, mi, "random_from_value", v)
+				if i%2 == 0 {
+					// Range stopped at every position: the callback returning false at the k-th populated field (a plain field,
+					// a oneof member, a container) must end the iteration there
+					for k := 1; k <= len(mi.fields)+1 && k <= 40 && !sv.stopped; k++ {
+						if !sv.do(&rop{code: "rstop", r: 0, a: -1, n: int64(k)}) {
+							break
+						}
+					}
+				}
+				g.random(sv, 25)
 			}
 		}
 	}
